@@ -2,6 +2,18 @@ import gfapy
 
 class Validation:
 
+  def _validate_record_type_specific_info(self):
+    # an interval is a pair of positions begin <= end, on the segment and
+    # on the external sequence
+    for pfx in ["s", "f"]:
+      beg = self.get(pfx+"_beg")
+      end = self.get(pfx+"_end")
+      if gfapy.posvalue(beg) > gfapy.posvalue(end):
+        raise gfapy.ValueError(
+          "Line: {}\n".format(str(self))+
+          "begin > end: {} > {}".format(gfapy.posvalue(beg),
+                                        gfapy.posvalue(end)))
+
   def validate_positions(self):
     "Checks that positions suffixed by $ are the last position of segments"
     if self.is_connected():
